@@ -27,7 +27,7 @@ def sh(cmd, cwd=None, env=None, timeout=3600):
 
 
 def run_check(prop, wt, tier):
-    env = dict(os.environ, VERIF_REPO=wt, VERIF_EVIDENCE_DIR="/tmp/seedcheck-evidence", VERIF_REPLAY_DIR="/tmp/seedcheck-replays")
+    env = dict(os.environ, VERIF_REPO=wt, VERIF_EVIDENCE_DIR="/tmp/seedcheck-evidence-%s" % os.path.basename(wt), VERIF_REPLAY_DIR="/tmp/seedcheck-replays-%s" % os.path.basename(wt))
     rc, out = sh([os.path.join(ROOT, "check"), prop, "--tier", tier], env=env)
     buckets = [l.strip()[len("bucket: "):] for l in out.splitlines() if l.strip().startswith("bucket:")]
     return {"exit": rc, "buckets": buckets[:4], "n_buckets": len(buckets)}
@@ -94,7 +94,7 @@ def main():
             res = {}
             res[prop + ":quick"] = run_check(prop, wt, "quick")
             caught = res[prop + ":quick"]["exit"] == 1
-            if not caught:
+            if not caught and os.environ.get("SEEDCHECK_THOROUGH", "1") != "0":
                 res[prop + ":thorough"] = run_check(prop, wt, "thorough")
                 caught = res[prop + ":thorough"]["exit"] == 1
             others = {}
@@ -126,8 +126,8 @@ def main():
                                 "then ./check <prop> --tier quick (thorough if missed) and the family's quick checks with VERIF_REPO=<worktree>; "
                                 "worktree restored with git checkout" % wt)
         json.dump(meta, open(os.path.join(dest, "meta.json"), "w"), indent=1)
-    shutil.rmtree("/tmp/seedcheck-evidence", ignore_errors=True)
-    shutil.rmtree("/tmp/seedcheck-replays", ignore_errors=True)
+    shutil.rmtree("/tmp/seedcheck-evidence-%s" % os.path.basename(wt), ignore_errors=True)
+    shutil.rmtree("/tmp/seedcheck-replays-%s" % os.path.basename(wt), ignore_errors=True)
 
 
 main()
